@@ -63,6 +63,9 @@ MUTANTS = [
     ("M120", "ace_group.py", "        if warning:\n            msg = f\"{line=} does not match ACE pattern\"\n            logging.warning(msg)\n        return None", "        return None", "C12"),
     ("M121", "ace_group.py", "            except ValueError as ex:\n                if warning:", "            except ValueError as ex:\n                if warning and \"protocol\" not in str(ex):", "C12"),
     ("M122", "acl.py", "            if isinstance(ace_o, (Ace, Remark)):\n                aces.append(ace_o)\n        self.items = aces", "            if isinstance(ace_o, Ace) or (isinstance(ace_o, Remark) and not aces[-1:] == [ace_o]):\n                aces.append(ace_o)\n        self.items = aces", "C12 C06"),
+    ("M130", "acl.py", "            input=self._input.copy(),", "            input=self._input,", "C16"),
+    ("M131", "ace_group.py", "                src_counter = len(item.srcaddr.items) or 1", "                src_counter = len(item.srcaddr.items) or 0", "C15"),
+    ("M132", "acl.py", "            elif isinstance(item, AceGroup):\n                _ungrouped = self._ungroup(item.items)\n                ungrouped_l.extend(_ungrouped)", "            elif isinstance(item, AceGroup):\n                _ungrouped = self._ungroup(item.items[:3])\n                ungrouped_l.extend(_ungrouped)", "C15 C17"),
     ("M30", "port.py", "            return [ports[0] - 1] if ports else [65535]", "            return [ports[0]] if ports else [65535]", "C08"),
     ("M31", "port.py", "            return [ports[-1] + 1] if ports else [1]", "            return [ports[1] + 1] if ports else [1]", "C08"),
     ("M32", "port.py", "        ports = sorted(ports)\n        if operator == \"eq\":", "        if operator == \"eq\":", "C08"),
